@@ -81,7 +81,6 @@ structure Spec {σ : Type} (P : Peer σ) (c : Cfg) where
   tox : ∀ r, R (.dep fTOX 0 c.idid c.inad [r])
   ack : ∀ pni, R (.dep fACK pni c.idid c.inad [])
   inf : ∀ fmt pni data, data.length ≤ c.imiu → R (.dep fmt pni c.idid c.inad data)
-  gtox : ∀ pni did nad, ¬ G (.dep fTOX pni did nad [])
 
 variable {σ : Type} {P : Peer σ} {c : Cfg}
 
@@ -217,7 +216,7 @@ theorem rtoxLoop_spec (S : Spec P c) (fuel pni : Nat) : ∀ i a res, S.Q a → S
       simp only [Pdu.fmt?, Option.some.injEq] at hf
       subst hf
       cases data with
-      | nil => exact absurd hg (S.gtox _ _ _)
+      | nil => exact Post.err S h comm_protocol
       | cons rtox rest =>
         dsimp only
         split
@@ -476,8 +475,7 @@ theorem lrTable_bounds (i : Nat) : 64 ≤ lrTable i ∧ lrTable i ≤ 254 := by
 /-- `Spec` from an invariant of the peer and a bound on the Initiator's frames -/
 def mkSpec (P : Peer σ) (c : Cfg) (Qp : σ → Prop) (Gp : Pdu → Prop) (Bi : Nat) (hB : Bi ≤ 254) (h6 : 6 ≤ Bi)
     (hm : c.imiu + 3 + flag c.idid 1 + flag c.inad 1 ≤ Bi)
-    (hrx : ∀ s rx, Qp s → Qp (P.rx s rx).1 ∧ ∀ p, (P.rx s rx).2 = some p → Gp p)
-    (hg : ∀ pni did nad, ¬ Gp (.dep fTOX pni did nad [])) : Spec P c where
+    (hrx : ∀ s rx, Qp s → Qp (P.rx s rx).1 ∧ ∀ p, (P.rx s rx).2 = some p → Gp p) : Spec P c where
   Q := AirInv Qp Gp Bi
   R := fun req => req.tlen ≤ Bi
   G := Gp
@@ -496,7 +494,6 @@ def mkSpec (P : Peer σ) (c : Cfg) (Qp : σ → Prop) (Gp : Pdu → Prop) (Bi : 
     have := flag_le c.idid; have := flag_le c.inad
     rw [tlen_dep]; simp; omega
   inf := fun fmt pni data hd => by rw [tlen_dep]; omega
-  gtox := hg
 
 theorem tox_not_out (Bt pni : Nat) (did nad : Option Nat) : ¬ TOut Bt (.dep fTOX pni did nad []) := by
   intro h; exact h.2 rfl
@@ -505,7 +502,7 @@ theorem tox_not_out (Bt pni : Nat) (did nad : Option Nat) : ¬ TOut Bt (.dep fTO
 def targetSpec (c : Cfg) (Bi Bt : Nat) (hB : Bi ≤ 254) (h6 : 6 ≤ Bi)
     (hm : c.imiu + 3 + flag c.idid 1 + flag c.inad 1 ≤ Bi) (ht : c.tmiu + 3 + flag c.tdid 1 ≤ Bt) :
     Spec (targetPeer c) c :=
-  mkSpec (targetPeer c) c (TInv Bt) (TOut Bt) Bi hB h6 hm (fun s rx h => tRx_inv c Bt ht s rx h) (tox_not_out Bt)
+  mkSpec (targetPeer c) c (TInv Bt) (TOut Bt) Bi hB h6 hm (fun s rx h => tRx_inv c Bt ht s rx h)
 
 theorem init_inv (c : Cfg) (Bi Bt : Nat) (hB : Bi ≤ 254) (h6 : 6 ≤ Bi)
     (hm : c.imiu + 3 + flag c.idid 1 + flag c.inad 1 ≤ Bi) (ht : c.tmiu + 3 + flag c.tdid 1 ≤ Bt)
@@ -623,7 +620,6 @@ def targetSpecE (c : Cfg) (hm : c.imiu + 3 + flag c.idid 1 + flag c.inad 1 ≤ 2
     (ht : c.tmiu + 3 + flag c.tdid 1 ≤ 254) (hf : c.v.f40 = true) : Spec (targetPeer c) c :=
   mkSpec (targetPeer c) c (fun t => TInv 254 t ∧ TErrInv t) (TOut 254) 254 (by omega) (by omega) hm
     (fun s rx h => ⟨⟨(tRx_inv c 254 ht s rx h.1).1, tRx_err c ht hf s rx h.2⟩, (tRx_inv c 254 ht s rx h.1).2⟩)
-    (tox_not_out 254)
 
 theorem run_target_err (c : Cfg) (hm : c.imiu + 3 + flag c.idid 1 + flag c.inad 1 ≤ 254)
     (ht : c.tmiu + 3 + flag c.tdid 1 ≤ 254) (hf : c.v.f40 = true)
@@ -666,17 +662,22 @@ theorem codec_roundtrip (b106 req : Bool) (p : Pdu) (hw : p.WF) (f : Bytes)
   · cases h
   · rename_i hlen
     cases h
+    have hshort : ¬ ((if b106 then [0xF0] else []) ++ [(encodePdu req p).length + 1] ++ encodePdu req p).length
+        < (if b106 then 2 else 1) := by
+      cases b106 <;> cases p <;> simp [encodePdu] <;> omega
+    unfold decodeFrame
+    simp only [hshort, if_false]
     cases p with
     | dep fmt pni did nad data =>
       obtain ⟨hf, hp⟩ := hw
       have hh := pfb_fields fmt pni (flag nad 8) (flag did 4) hf hp
         (by unfold flag; split <;> simp) (by unfold flag; split <;> simp)
       cases b106 <;> cases req <;> cases did <;> cases nad <;>
-        simp [decodeFrame, encodePdu, optByte, decodeDep, flag] at hh ⊢ <;> simp_all <;> omega
+        simp [decodeFrameAux, encodePdu, optByte, decodeDep, flag] at hh ⊢ <;> simp_all <;> omega
     | dsl did =>
-      cases b106 <;> cases req <;> cases did <;> simp [decodeFrame, encodePdu, optByte, decodeDsl]
+      cases b106 <;> cases req <;> cases did <;> simp [decodeFrameAux, encodePdu, optByte, decodeDsl]
     | rls did =>
-      cases b106 <;> cases req <;> cases did <;> simp [decodeFrame, encodePdu, optByte, decodeDsl]
+      cases b106 <;> cases req <;> cases did <;> simp [decodeFrameAux, encodePdu, optByte, decodeDsl]
     | atr _ => exact absurd hw id
     | psl _ => exact absurd hw id
 
